@@ -68,8 +68,10 @@ TTick       == IsEvent("tick") /\ Ev.applied /\ Tick(Ev.n) /\ ObsEnv(Ev)
 TRestart    == IsEvent("restart") /\ Restart /\ ObsEnv(Ev)
 
 \* what the transcription predicts for this reconcile (diagnostic)
+NormP(p) == IF p.exists THEN p ELSE [p EXCEPT !.uid = 0]
 Predicted(e) == LET o == Rec(job, resv, pod, now, par, restarted, ToSetOf(e.fail))
-                IN  [job |-> o.j, r |-> o.r, calls |-> o.calls, hit |-> o.hit]
+                IN  [job |-> o.j, r |-> o.r, hit |-> o.hit,
+                     calls |-> [i \in 1..Len(o.calls) |-> [o.calls[i] EXCEPT !.p = NormP(@)]]]
 TReconcile ==
     /\ IsEvent("reconcile")
     /\ LET cs == AbsCalls(Ev.calls)
